@@ -12,25 +12,29 @@ tree is well typed under *every* solution of `σ`.
 -/
 namespace Tfv
 
-/-- every application node is well typed under `ρ`; leaves carry no obligation -/
+/-- every application node is well typed under `ρ`; leaves carry no obligation, a shared
+expression object is transparent -/
 def WellTyped (L : Lang) (ρ : Val) : TExpr → Prop
   | .src _ _ _ => True
   | .op _ _ => True
   | .app f x t => WellTyped L ρ f ∧ WellTyped L ρ x ∧
       ((∃ p, den ρ f.ty = .app FUN [p, den ρ t] ∧ Sub L (den ρ x.ty) p) ∨
        (den ρ f.ty = .app TOP [] ∧ den ρ t = .app TOP []))
+  | .shared _ e => WellTyped L ρ e
 
 /-- `SubExpr a e`: `a` is a node of the tree `e` -/
 inductive SubExpr : TExpr → TExpr → Prop
   | refl (e : TExpr) : SubExpr e e
   | fn {a f x : TExpr} {t : Term} : SubExpr a f → SubExpr a (.app f x t)
   | arg {a f x : TExpr} {t : Term} : SubExpr a x → SubExpr a (.app f x t)
+  | shared {a e : TExpr} {k : Nat} : SubExpr a e → SubExpr a (.shared k e)
 
 /-- the type of every node is a well-formed term of the store -/
 def okExpr (L : Lang) (σ : Store) : TExpr → Bool
   | .src _ _ t => okTerm L σ t
   | .op _ t => okTerm L σ t
   | .app f x t => okExpr L σ f && okExpr L σ x && okTerm L σ t
+  | .shared _ e => okExpr L σ e
 
 /-- the tree lives in the store `σ` and is well typed under every solution of `σ` -/
 structure TypedIn (L : Lang) (σ : Store) (e : TExpr) : Prop where
